@@ -109,6 +109,7 @@ Definition sw_calm_stmt (st : stmt) : bool :=
 
 Definition dcs_calm (c : call) : bool :=
   match c with
+  | DcsCreate PSwitch _ => false                              (* filing a request: only IssueFailover does that *)
   | DcsGet _ | DcsChildren _ | DcsDelete _ | DcsCreate _ _ | DcsSetEph _ _ | Now | Sleep _ | Peek _ | FileWrite _ | FileExists _ | FileRemove _ => true
   | DcsSet PMaster _ | DcsSet PLastSwitch _ => false     (* the two success records *)
   | DcsSet _ _ => true
